@@ -66,7 +66,126 @@ func collectFieldLits(c *Ctx) []fieldLit {
 			return true
 		})
 	})
-	return expandHelperLits(c, out)
+	return expandHelperLits(c, expandModifiedLits(out))
+}
+
+// expandModifiedLits: `f := Field{…}` followed by assignments `f.Slot = e` - unconditional ones, and if/else
+// statements whose branches consist of nothing but such assignments - stands for one literal per branch combination.
+func expandModifiedLits(lits []fieldLit) []fieldLit {
+	var out []fieldLit
+	for _, l := range lits {
+		info := l.pk.TypesInfo
+		// the statement list that holds `v := <lit>`
+		var list []ast.Stmt
+		var at int
+		var vobj types.Object
+		ast.Inspect(l.fd.Body, func(n ast.Node) bool {
+			blk, ok := n.(*ast.BlockStmt)
+			if !ok {
+				return true
+			}
+			for i, st := range blk.List {
+				as, ok := st.(*ast.AssignStmt)
+				if !ok || len(as.Lhs) != 1 || len(as.Rhs) != 1 || ast.Unparen(as.Rhs[0]) != ast.Expr(l.lit) {
+					continue
+				}
+				if id, ok := as.Lhs[0].(*ast.Ident); ok {
+					if o := info.Defs[id]; o != nil {
+						vobj, list, at = o, blk.List, i
+					} else if o := info.Uses[id]; o != nil {
+						vobj, list, at = o, blk.List, i
+					}
+				}
+			}
+			return true
+		})
+		if vobj == nil {
+			out = append(out, l)
+			continue
+		}
+		slotAssign := func(st ast.Stmt) (string, ast.Expr, bool) {
+			as, ok := st.(*ast.AssignStmt)
+			if !ok || len(as.Lhs) != 1 || len(as.Rhs) != 1 || as.Tok != token.ASSIGN {
+				return "", nil, false
+			}
+			sel, ok := as.Lhs[0].(*ast.SelectorExpr)
+			if !ok {
+				return "", nil, false
+			}
+			id, ok := sel.X.(*ast.Ident)
+			if !ok || info.Uses[id] != vobj {
+				return "", nil, false
+			}
+			return sel.Sel.Name, as.Rhs[0], true
+		}
+		clone := func(b fieldLit) fieldLit {
+			n := b
+			n.slots = map[string]ast.Expr{}
+			for k, v := range b.slots {
+				n.slots[k] = v
+			}
+			return n
+		}
+		apply := func(b *fieldLit, name string, e ast.Expr) {
+			if name == "Type" {
+				b.ftype = ConstOf(info, e)
+			} else {
+				b.slots[name] = e
+			}
+		}
+		variants := []fieldLit{clone(l)}
+		changed := false
+		for _, st := range list[at+1:] {
+			if name, e, ok := slotAssign(st); ok {
+				for i := range variants {
+					apply(&variants[i], name, e)
+				}
+				changed = true
+				continue
+			}
+			if ifs, ok := st.(*ast.IfStmt); ok && ifs.Init == nil {
+				onlyAssigns := func(b *ast.BlockStmt) bool {
+					if b == nil {
+						return false
+					}
+					for _, s2 := range b.List {
+						if _, _, ok := slotAssign(s2); !ok {
+							return false
+						}
+					}
+					return true
+				}
+				elseBlk, _ := ifs.Else.(*ast.BlockStmt)
+				if onlyAssigns(ifs.Body) && (ifs.Else == nil || onlyAssigns(elseBlk)) {
+					var next []fieldLit
+					for _, v := range variants {
+						a, b := clone(v), clone(v)
+						for _, s2 := range ifs.Body.List {
+							n2, e2, _ := slotAssign(s2)
+							apply(&a, n2, e2)
+						}
+						if elseBlk != nil {
+							for _, s2 := range elseBlk.List {
+								n2, e2, _ := slotAssign(s2)
+								apply(&b, n2, e2)
+							}
+						}
+						next = append(next, a, b)
+					}
+					variants = next
+					changed = true
+					continue
+				}
+			}
+			break
+		}
+		if !changed {
+			out = append(out, l)
+			continue
+		}
+		out = append(out, variants...)
+	}
+	return out
 }
 
 // expandHelperLits: a Field literal inside an unexported helper whose Type (and slots) are the helper's own
@@ -1048,43 +1167,101 @@ func c3Time(c *Ctx) {
 	field := c.fieldNamed()
 	tt, _ := c.ConstVal(CorePath, "TimeType")
 	tf, _ := c.ConstVal(CorePath, "TimeFullType")
-	// group stores by alloc
-	type lit struct {
-		typ   int64
-		slots map[string]*ssa.Store
-	}
-	lits := map[ssa.Value]*lit{}
-	for _, st := range FieldStoresOf(fn, field) {
-		l := lits[st.Addr.X]
-		if l == nil {
-			l = &lit{typ: -1, slots: map[string]*ssa.Store{}}
-			lits[st.Addr.X] = l
-		}
-		l.slots[st.Field] = st.Instr
-		if st.Field == "Type" {
-			l.typ, _ = ConstInt(st.Instr.Val)
-		}
-	}
+	_ = field
+	// Path exploration: which form is returned after which outcome of the two range tests
+	vn := fn.Params[1].Name()
+	seqs, trunc := ConcPaths(fn, ConcCfg{
+		Event: func(in ssa.Instruction, st *ConcState) string {
+			r, ok := in.(*ssa.Return)
+			if !ok {
+				return ""
+			}
+			k, isInt, _ := st.FieldOf(r.Results[0], "Type")
+			typ := "?"
+			if isInt {
+				typ = itoa(int(k))
+			}
+			render := func(f string) string {
+				n, isI, v := st.FieldOf(r.Results[0], f)
+				switch {
+				case isI:
+					return itoa(int(n))
+				case v != nil:
+					return st.Desc(v)
+				}
+				return "-"
+			}
+			return "ret(type=" + typ + ",int=" + render("Integer") + ",iface=" + render("Interface") + ")"
+		},
+		Branch: func(cond ssa.Value, taken bool, st *ConcState) string {
+			pol := taken
+			for k := 0; k < 8; k++ {
+				if u, ok := cond.(*ssa.UnOp); ok && u.Op == token.NOT {
+					cond, pol = u.X, !pol
+					continue
+				}
+				if nx := st.Step(cond); nx != nil {
+					cond = nx
+					continue
+				}
+				break
+			}
+			d := st.Desc(cond)
+			tf := func(n string) string {
+				if pol {
+					return n + "=T"
+				}
+				return n + "=F"
+			}
+			switch d {
+			case "Before(" + vn + ", _minTimeInt64)":
+				return tf("before")
+			case "After(" + vn + ", _maxTimeInt64)":
+				return tf("after")
+			}
+			return "cond(" + d + ")"
+		},
+	})
+	var bad []string
 	sawT, sawF := false, false
-	for _, l := range lits {
-		switch l.typ {
-		case tt:
-			sawT = true
-			st := l.slots["Integer"]
-			atoms := AtomStrings(Guards(st))
-			inRange := len(atoms) == 2 && atoms[0] == "!After(val, _maxTimeInt64)" && atoms[1] == "!Before(val, _minTimeInt64)"
-			okI := st != nil && Desc(st.Val) == "UnixNano(val)"
-			okL := l.slots["Interface"] != nil && Desc(l.slots["Interface"].Val) == "Location(val)"
-			c.Check(inRange && okI && okL, "R3.5", name, "nanos-only-in-range", st.Pos(), "the int64-nanosecond form (UnixNano + Location) is used exactly when the time is neither before _minTimeInt64 nor after _maxTimeInt64 (guards %v)", atoms)
-		case tf:
+	for _, sq := range seqs {
+		ev := strings.Split(sq, " ; ")
+		out := false
+		inRangeKnown := 0
+		ret := ""
+		for _, e := range ev {
+			switch e {
+			case "before=T", "after=T":
+				out = true
+			case "before=F", "after=F":
+				inRangeKnown++
+			default:
+				if strings.HasPrefix(e, "ret(") {
+					ret = e
+				} else {
+					bad = append(bad, sq)
+				}
+			}
+		}
+		wantIn := "ret(type=" + itoa(int(tt)) + ",int=UnixNano(" + vn + "),iface=Location(" + vn + "))"
+		wantOut := "ret(type=" + itoa(int(tf)) + ",int=0,iface=" + vn + ")"
+		wantOut2 := "ret(type=" + itoa(int(tf)) + ",int=-,iface=" + vn + ")"
+		switch {
+		case out:
 			sawF = true
-			st := l.slots["Interface"]
-			c.Check(st != nil && Strip(st.Val) == ssa.Value(fn.Params[1]), "R3.5", name, "full-time-otherwise", st.Pos(), "out-of-range times are carried whole")
+			if ret != wantOut && ret != wantOut2 {
+				bad = append(bad, sq)
+			}
+		case inRangeKnown == 2:
+			sawT = true
+			if ret != wantIn {
+				bad = append(bad, sq)
+			}
+		default:
+			bad = append(bad, sq)
 		}
 	}
-	if !sawT || !sawF {
-		c.Bad("R3.5", name, "forms", fn.Pos(), "expected both a TimeType and a TimeFullType literal")
-	}
+	c.Check(!trunc && len(bad) == 0 && sawT && sawF, "R3.5", name, "nanos-only-in-range", fn.Pos(), "over all %d paths of zap.Time: the int64-nanosecond form (TimeType, UnixNano, Location) is returned exactly after both range tests (before _minTimeInt64, after _maxTimeInt64) came out false; otherwise the time is carried whole (TimeFullType, Interface = the value): %v", len(seqs), bad)
 	// bounds
 	init := c.Func(ZapPath, "init")
 	okMin, okMax := false, false
